@@ -5,6 +5,12 @@
 import Kopf.Lemmas.C06_Lists
 namespace Kopf.C06
 
+@[simp] theorem snap_rv (s : State) : (snap s).rv = s.rv := rfl
+@[simp] theorem snap_marked (s : State) : (snap s).marked = s.marked := rfl
+@[simp] theorem snap_fins (s : State) : (snap s).fins = s.fins := rfl
+@[simp] theorem snap_matchDel (s : State) : (snap s).matchDel = s.matchDel := rfl
+@[simp] theorem snap_matchDmn (s : State) : (snap s).matchDmn = s.matchDmn := rfl
+
 structure InvU (s : State) : Prop where
   rvle : ∀ p, s.pending = some p → p.rvTest ≤ s.rv
   view : ∀ p, s.pending = some p → s.rv = p.rvTest → p.view = s.fins
@@ -21,15 +27,23 @@ theorem invU_step {own : String} {s s' : State} {l : Label} (h : InvU s) (hs : s
   split at hs
   · cases hs
   cases l with
-  | decide e =>
+  | decide e v =>
     simp only [stepDecide] at hs
     split at hs
     · cases hs
-    · cases hs
-      constructor
-      · intro p hp; simp at hp; subst hp; simp
-      · intro p hp; simp at hp; subst hp; simp
-      · simp; intro hf; simp [hf, h3 hf]
+    · split at hs
+      · cases hs
+      · next hguard =>
+        cases hs
+        simp only [Bool.or_eq_true, Bool.not_eq_true', decide_eq_false_iff_not, Bool.and_eq_true, beq_iff_eq,
+          bne_iff_ne, ne_eq, not_or, Decidable.not_not, not_and] at hguard
+        constructor
+        · intro p hp; simp at hp; subst hp; exact hguard.1
+        · intro p hp hrv; simp at hp; subst hp
+          simp only at hrv ⊢
+          have := hguard.2 hrv.symm
+          rw [this]; rfl
+        · simp; intro hf; simp [hf, h3 hf]
   | mergePatch =>
     simp only [stepMerge] at hs
     split at hs
@@ -86,11 +100,13 @@ theorem invU_step {own : String} {s s' : State} {l : Label} (h : InvU s) (hs : s
     · intro p hp; have := h1 p hp; simp; omega
     · intro p hp hrv; have := h1 p hp; simp at hrv; omega
     · exact h3
-  | handlerFinishes =>
-    simp only at hs
-    split at hs
-    · cases hs; exact ⟨h1, h2, h3⟩
-    · cases hs
+  | write d m =>
+    cases hs
+    constructor
+    · intro p hp; have := h1 p hp; simp; omega
+    · intro p hp hrv; have := h1 p hp; simp at hrv; omega
+    · exact h3
+  | handlerFinishes => cases hs; exact ⟨h1, h2, h3⟩
   | daemonExits o =>
     simp only at hs
     split at hs
@@ -128,9 +144,9 @@ def inputsB (matchDel matchDmn delDone dmnLive dmnForever marked blocked cons me
     consistent := cons && memEmpty, spawnDelays := dmnLive && (marked || !matchDmn),
     changeDelays := (matchDel && !(delDone && !delReset)) || otherDelays }
 
-theorem inputs_eq (own : String) (s : State) (e : Env) :
-    inputs own s e = inputsB s.matchDel s.matchDmn s.delDone s.dmnLive s.dmnForever s.marked
-      (decide (own ∈ s.fins)) e.consistent s.mem.isEmpty e.otherChanging e.otherDelays e.delReset := rfl
+theorem inputs_eq (own : String) (v : Snap) (s : State) (e : Env) :
+    inputs own v s e = inputsB v.matchDel v.matchDmn s.delDone s.dmnLive s.dmnForever v.marked
+      (decide (own ∈ v.fins)) e.consistent s.mem.isEmpty e.otherChanging e.otherDelays e.delReset := rfl
 
 /-- Whenever the block queues a removal, nothing requires the finalizer on the object it saw
 (the daemon it may just have spawned included). -/
@@ -173,20 +189,28 @@ theorem invG_step {own : String} {s s' : State} {l : Label} (h : InvG s) (hg : G
   · cases hs
   -- fresh
   · cases l with
-    | decide e =>
+    | decide e v =>
       simp only [stepDecide] at hs
       split at hs
       · cases hs
-      · cases hs
-        intro p hp hal _
-        simp only [Option.some.injEq] at hp
-        subst hp
-        simp only [List.mem_append] at hal
-        have hd : Fn.allow ∈ (decision (inputs own s e)).fns := hal.resolve_left h4
-        rw [allow_mem_fns, inputs_eq] at hd
-        have := key_bool _ _ _ _ _ _ _ _ _ _ _ _ h3 hd
-        simp only [required, inputs_eq]
-        exact this
+      · split at hs
+        · cases hs
+        · next hguard =>
+          cases hs
+          simp only [Bool.or_eq_true, Bool.not_eq_true', decide_eq_false_iff_not, Bool.and_eq_true, beq_iff_eq,
+            bne_iff_ne, ne_eq, not_or, Decidable.not_not, not_and] at hguard
+          intro p hp hal hrv
+          simp only [Option.some.injEq] at hp
+          subst hp
+          simp only at hrv
+          have hv : v = snap s := hguard.2 hrv.symm
+          subst hv
+          simp only [List.mem_append] at hal
+          have hd : Fn.allow ∈ (decision (inputs own (snap s) s e)).fns := hal.resolve_left h4
+          rw [allow_mem_fns, inputs_eq] at hd
+          have := key_bool _ _ _ _ _ _ _ _ _ _ _ _ h3 hd
+          simp only [required, inputs_eq]
+          exact this
     | mergePatch =>
       simp only [stepMerge] at hs
       split at hs
@@ -246,14 +270,16 @@ theorem invG_step {own : String} {s s' : State} {l : Label} (h : InvG s) (hg : G
       have := h1 p hp
       simp at hrv; omega
     | handlerFinishes =>
-      simp only at hs
-      split at hs
-      · cases hs
-        intro p hp hal hrv
-        have := h5 p hp hal hrv
-        simp [required] at this ⊢
-        exact this.2
-      · cases hs
+      cases hs
+      intro p hp hal hrv
+      have := h5 p hp hal hrv
+      simp [required] at this ⊢
+      exact this.2
+    | write d m =>
+      cases hs
+      intro p hp _ hrv
+      have := h1 p hp
+      simp at hrv; omega
     | daemonExits o =>
       simp only at hs
       split at hs
@@ -284,11 +310,13 @@ theorem never_early_step_of_inv {own : String} {s s' : State} {l : Label} (h : I
   split at hs
   · cases hs
   cases l with
-  | decide e =>
+  | decide e v =>
     simp only [stepDecide] at hs
     split at hs
     · cases hs
-    · cases hs; exact hown
+    · split at hs
+      · cases hs
+      · cases hs; exact hown
   | mergePatch =>
     simp only [stepMerge] at hs
     split at hs
@@ -337,11 +365,8 @@ theorem never_early_step_of_inv {own : String} {s s' : State} {l : Label} (h : I
     · split at hs <;> (cases hs; exact hown)
   | toggleDel => cases hs; exact hown
   | toggleDmn => cases hs; exact hown
-  | handlerFinishes =>
-    simp only at hs
-    split at hs
-    · cases hs; exact hown
-    · cases hs
+  | write d m => cases hs; exact hown
+  | handlerFinishes => cases hs; exact hown
   | daemonExits o =>
     simp only at hs
     split at hs
@@ -354,18 +379,19 @@ theorem never_early_step_of_inv {own : String} {s s' : State} {l : Label} (h : I
 /-- The state after a cycle nobody interferes with: the fns (carried first) are applied to the
 list the cycle saw; nothing is sent when that changes nothing. -/
 def afterCycle (own : String) (s : State) (e : Env) : State :=
-  let fns := s.mem ++ (decision (inputs own s e)).fns
+  let fns := s.mem ++ (decision (inputs own (snap s) s e)).fns
   let target := applyFns own fns s.fins
   let live := s.dmnLive || (!s.marked && s.matchDmn && !s.dmnForever)
-  let done := if (decision (inputs own s e)).handlersRun then s.delDone && !e.delReset else s.delDone
-  if target = s.fins then { s with dmnLive := live, delDone := done, pending := none, mem := [] }
-  else { s with dmnLive := live, delDone := done, fins := target, rv := s.rv + 1, pending := none, mem := [],
+  let done := if (decision (inputs own (snap s) s e)).handlersRun then s.delDone && !e.delReset else s.delDone
+  let rv1 := if e.merge && e.mergeChanges then s.rv + 1 else s.rv     -- the merge patch, if it changes the object
+  if target = s.fins then { s with dmnLive := live, delDone := done, rv := rv1, pending := none, mem := [] }
+  else { s with dmnLive := live, delDone := done, fins := target, rv := rv1 + 1, pending := none, mem := [],
                 gone := s.marked && target.isEmpty }
 
 theorem cycle_run (own : String) (s : State) (e : Env) (hg : s.gone = false) (hp : s.pending = none) :
-    run own s (cycleLabels e) = some (afterCycle own s e) := by
+    run own s (cycleLabels s e) = some (afterCycle own s e) := by
   rcases e with ⟨c, m, oc, od, mc, dr⟩
-  cases m <;>
+  cases m <;> cases mc <;>
     simp [cycleLabels, run, step, stepDecide, stepMerge, stepJson, hg, hp, afterCycle] <;>
     split <;> simp_all
 
